@@ -315,9 +315,12 @@ def run_check(prop, tier, module=None, explanation="", extra_assumptions=()):
         "wall_s": round(time.time() - t0, 2),
         "violations": len(viols),
     }
-    os.makedirs(EVID, exist_ok=True)
-    with open(os.path.join(EVID, "%s.json" % prop), "w") as fh:
-        json.dump(ev, fh, indent=1)
+    dev_tree = os.environ.get("WWV_REPO")
+    if not dev_tree or os.path.realpath(dev_tree) == os.path.realpath("/repo"):
+        # (a development run against another checkout -- WWV_REPO=<scratch worktree> -- never overwrites the evidence of /repo)
+        os.makedirs(EVID, exist_ok=True)
+        with open(os.path.join(EVID, "%s.json" % prop), "w") as fh:
+            json.dump(ev, fh, indent=1)
     if canaries:
         print("%s canaries: %d fired, %d silent, %d skipped" % (prop, len([c for c in canaries if c["status"] == "fired"]), len(silent),
                                                                  len([c for c in canaries if c["status"] == "skipped"])))
